@@ -12,6 +12,7 @@ FLAVOURS = {
     # builds that select code by predefined macros: ISA extensions of the host (-march=native defines __POPCNT__, __PCLMUL__, __AVX2__, ...) and other optimisation levels
     'asan-native': {'cc': 'gcc', 'cflags': SAN + ' -DNDEBUG -march=native'},
     'plain-O0': {'cc': 'gcc', 'cflags': '-O0 -g -DNDEBUG'},
+    'plain-lto': {'cc': 'gcc', 'cflags': '-O2 -g -DNDEBUG -flto', 'ldflags': '-O2 -g -flto'},      # whole-program optimisation across the library's translation units
     'plain-Os': {'cc': 'gcc', 'cflags': '-Os -g -DNDEBUG'},
     'plain-O3': {'cc': 'gcc', 'cflags': '-O3 -g -DNDEBUG -march=native'},
     'schar':    {'cc': 'gcc', 'cflags': SAN + ' -DNDEBUG', 'lib_cflags': '-fsigned-char'},
@@ -300,6 +301,7 @@ PROPS['C13'] = {
              {'name': 'clang', 'flavour': 'clang-asan', 'driver': 'drv_c13', 'env': {'PV_SCALE': '10'}, 'shards': 4, 'timeout': 1800},
              {'name': 'native', 'flavour': 'asan-native', 'driver': 'drv_c13', 'env': {'PV_SCALE': '10'}, 'shards': 4, 'timeout': 1800},
              {'name': 'O0', 'flavour': 'plain-O0', 'driver': 'drv_c13', 'env': {'PV_SCALE': '8'}, 'shards': 2, 'timeout': 1800},
+             {'name': 'lto+locale', 'flavour': 'plain-lto', 'driver': 'drv_c13', 'env': {'PV_SCALE': '8', 'PV_LOCALE': 'C.utf8'}, 'shards': 2, 'timeout': 1800},
              {'name': 'Os', 'flavour': 'plain-Os', 'driver': 'drv_c13', 'env': {'PV_SCALE': '8'}, 'shards': 2, 'timeout': 1800},
              {'name': 'O3-native', 'flavour': 'plain-O3', 'driver': 'drv_c13', 'env': {'PV_SCALE': '8'}, 'shards': 2, 'timeout': 1800}],
     'require': {'walks.matched_model': 3000, 'exhaustive.sequences': 11110, 'ops.create': 10000, 'ops.load': 10000, 'ops.decode': 20000, 'ops.crypt': 10000, 'ops.reinject': 3000,
